@@ -68,7 +68,7 @@ def _tol(x):
     return 1e-6 * (1 + abs(float(x)))
 
 
-def certificate(rec, obs, sol, obj, tag, row_tol=None):
+def certificate(rec, obs, sol, obj, tag, row_tol=None, neg_tol=1e-6):
     """Feasibility of the returned point and objective == c.x (valid at any size)."""
     c, A, b = rec["c"], rec["A"], rec["b"]
     n = len(c)
@@ -77,7 +77,7 @@ def certificate(rec, obs, sol, obj, tag, row_tol=None):
         return False
     ok = True
     for j, v in enumerate(sol):
-        if not (v >= -1e-6):
+        if not (v >= -neg_tol):
             obs.violate(f"{tag}.negative-coordinate", f"x[{j}]={v}")
             ok = False
             break
@@ -147,7 +147,12 @@ def judge_interior(rec, obs, prefix=""):
         m, n = len(rec["b"]), len(rec["c"])
         if m == 0 or n == 0:
             return
-        certificate(rec, obs, res.solution, res.objective, "ipm")
+        # "within its tolerance": the caller's eps is the solver's tolerance (HEAD: ||Ax+s-b|| < eps with s > 0, and
+        # n*mu < n*eps for the gap); with the default 1e-8 the simplex tolerances below are the wider ones
+        eps_used = float(rec["kw"].get("eps", 1e-8))
+        bmax = max((abs(float(v)) for v in rec["b"]), default=0.0)
+        certificate(rec, obs, res.solution, res.objective, "ipm",
+                    row_tol=None if eps_used <= 1e-6 else eps_used * (1 + bmax), neg_tol=max(1e-6, eps_used))
         orc = oracle_for(rec)
         if orc is None:
             obs.mode(prefix + "ipm.certificate_only")
@@ -157,7 +162,7 @@ def judge_interior(rec, obs, prefix=""):
         obs.event(prefix + "lp.ipm.optimal-clause-exercised")
         if ost != "optimal":
             obs.violate(f"ipm.optimal-but-{ost}", f"solve_lp_interior says OPTIMAL, oracle says {ost}")
-        elif abs(res.objective - float(oobj)) > 1e-4 * (1 + abs(float(oobj))):
+        elif abs(res.objective - float(oobj)) > max(1e-4, 10 * (m + n) * eps_used) * (1 + abs(float(oobj))):
             obs.violate("ipm.objective-not-optimal", f"reported {res.objective}, true optimum {float(oobj)}")
     elif st == "FEASIBLE":
         # documented: primal residual below 0.01
